@@ -230,6 +230,9 @@ func (sh *Shared) buildIntrinsics() {
 		return &cell
 	}
 	m[v+"Symbolic"] = func(fr *frame, args []value) value { return true }
+	// goroutines of the code under test that are blocked for good right now (sched.go)
+	m[v+"ParkedGoroutines"] = func(fr *frame, args []value) value { return fr.i.parkedCount() }
+	m[v+"GoroutineBaseline"] = func(fr *frame, args []value) value { return nil }
 	m[v+"Assume"] = func(fr *frame, args []value) value {
 		p := fr.i.path
 		switch c := args[0].(type) {
